@@ -13,6 +13,11 @@ CLAIMED = {
  "C06": ("Refinement theorem in Lean 4: after every history of add/remove/create_view the concrete per-type sorted index of each view represents exactly the abstract bag of (type, entry) pairs, remove of an absent structure raises and changes nothing, other views are untouched, and select over any iteration order of the descendant set is a permutation of the bag filtered by the ancestor relation (via the C10 theorems); per-type chunks are (begin,end)-sorted. Tied to /repo by a per-run correspondence + oracle check on random histories.", "6 C06"),
  "C07": ("Machine-checked Lean 4 theorems: on every sorted per-type index of well-formed annotations the bisect window + filter of select_covered equals the definitional containment filter (any span), select_covering likewise, lifted to any iteration order of the descendant set; tied to /repo by a correspondence check (implementation vs compiled model vs definitional oracle; exhaustive over all multisets of <=3 spans on offsets 0..3).", "6 C07"),
  "C10": ("Invariant proof in Lean 4: the tree invariant Consistent holds for the built-in table regenerated from /repo (kernel-decided), is preserved by create_type (new names) and create_feature, hence for every API history; under it descendants = reflexive-transitive closure, subsumes/is_instance_of = ancestor relation, lookup laws and rejections. The model's create_type/create_feature replayed over the built-in creation script rebuild the introspected table exactly (kernel-decided). Tied to /repo by per-run correspondence + independent tree oracle on random histories, incl. an object-identity walk on the implementation.", "6 C10"),
+ "C08": ("Machine-checked Lean 4 theorems on the shared-state CAS model: in every history every handle keeps the root's leniency and points to an existing view (one sofa per view, unique names); add/remove/sofa setters through a handle of one view change nothing in any other view (frame theorems); sofa fields read back as written and the text setter recomputes the offset mapping; add installs the sofa link and covered text is the slice of that view's text; the document annotation is reused or created exactly once. Tied to /repo by per-run correspondence + shadow-state oracle over interleavings with many live handles.", "6 C08"),
+ "C09": ("Invariant proof in Lean 4: every state reachable from an empty CAS (and every step from any state with bounded unique ids, e.g. the one a loader leaves) keeps all xmi:ids of sofas and feature structures and all sofaNums pairwise distinct and below the generators, generated ids are fresh, kept ids persist, id-assigning traversals (serialisers) preserve this. Document level (loaders reseed above all ids incl. sofas, writers emit distinct ids, forced duplicates raise) is observed per run on the implementation with independent XML/JSON parsers.", "6 C09"),
+ "C11": ("Invariant proof in Lean 4: FeatInv (inherited = supertype's effective features by name and definition, one definition per name) holds for the regenerated built-in table (kernel-decided), is preserved by create_type and create_feature, hence for every API history; consequences: effective names = own + parent's, visibility on all current and future descendants, constructor fields = effective names, identical redefinition is a no-op, conflicting range raises in either order. Tied to /repo by per-run correspondence + independent declaration oracle.", "6 C11"),
+ "C15": ("Machine-checked Lean 4 bound for the worklist of Cas._find_all_fs on every heap: iterations <= |seeds| + sum of out-degrees, pops = |seeds| + pushes, termination under finite list spines, each structure collected once, heap only gains ids; recursion of the hierarchy queries is bounded by |types|+1 (C10 theorems). Tied to /repo by exact step-count correspondence (sys.monitoring) on cycle/diamond/repeated/null/long-list shapes and deadlines on serialisers; wall-clock and recursion depth are runtime behaviour outside the model (partial).", "6 C15"),
+ "C19": ("Machine-checked Lean 4 theorems: per structure typecheck returns exactly one error (carrying the owner's id) per non-null element of an FSArray-valued feature whose type is not subsumed by the declared element type (absent = TOP), is total on well-formed arrays (unset, empty, no element list, null elements), empty iff no offender, offender iff not a descendant (via C10); per CAS the concatenation over everything the traversal collects. Tied to /repo by per-run correspondence + independent reachability/subtree oracle.", "6 C19"),
  "C18": ("Machine-checked Lean 4 theorems about get/set over split paths on arbitrary heaps (cycles included): get = step-by-step fold, None propagation, set assigns exactly one slot (frame), set-then-get under the stated stability condition, error conditions. Tied to /repo by exhaustive small-graph and random correspondence + shadow-heap oracle.", "6 C18"),
 }
 checks = []
